@@ -39,6 +39,13 @@ SHIMS = {}
 ENV_EXCLUDED = {
     "cuda": "no GPU/cupy/awkward_cuda_kernels in the sandbox: ak.to_kernels(..., 'cuda'), copy_to('cuda'), "
             "from_cupy/to_cupy",
+    "numexpr": "ak.numexpr.evaluate/re_evaluate (src/awkward/_connect/_numexpr.py) call private numexpr internals that "
+               "changed in numexpr >= 2.8.5 (necompiler.getContext(frame_depth=) renamed, necompiler._names_cache is now "
+               "thread-local storage); not shimmable without re-implementing the repo function",
+    "awkward0": "ak.from_awkward0/to_awkward0 need awkward0, whose 0.15.5 release calls numpy.array(copy=False) in a way "
+                "NumPy 2 rejects",
+    "jax.jvp/vjp on 0-d results": "jax 0.11 returns 0-d jax Arrays where 2021 jax returned values ak.to_list could "
+                                  "iterate (tests/test_0793 test_numpyarray_grad_3)",
 }
 
 
